@@ -92,6 +92,7 @@ def verify(contract, scratch, tucache, bounded=0, bcase=None):
         ex.aux_tus = aux
         ex.bounded = bounded
         ex.decl_assume = getattr(contract, 'domain_after', None)
+        ex.domain_values = getattr(contract, 'domain_values', None)
         ex.loops = contract.loops_for(ci) if hasattr(contract, 'loops_for') else contract.loops
         ex.calls = contract.calls
         ex.default_tags = set(contract.tags)
@@ -237,6 +238,9 @@ def store_field(ex, st, obj, name, tnode, v):
                 st.scal[path + '.head'] = st.scal[hp]
         if k in ('vector', 'marray', 'queue'):
             # by-value copy of a container into the member
+            if k in ('vector', 'queue'):
+                for lf, lct in models.container_leaves(v.cls):
+                    st.array(v.name, lf, lct)      # materialise the source contents that are being copied
             for key in list(st.arr):
                 if key[0] == v.name:
                     st.arr[(path, key[1])] = st.arr[key]
@@ -430,6 +434,10 @@ class Use:
         vals = []
         for ai, a in enumerate(argn):
             if a.get('kind') == 'CXXDefaultArgExpr' and not a.get('inner'):
+                at = (a.get('type', {}).get('desugaredQualType') or a.get('type', {}).get('qualType', ''))
+                if 'nullptr_t' in at or a.get('type', {}).get('qualType') == 'oclhptr_t':
+                    vals.append(PtrV(None, I(0), parse_type(a['type'])))      # defaulted OpenCL handle: nullptr in this build
+                    continue
                 vals.append(default_arg(ex, n, st, ai))
                 continue
             ct = parse_type(a['type'])
